@@ -322,12 +322,16 @@ class spawn(SpawnBase):
         and SIGINT). '''
 
         self.flush()
-        with _wrap_ptyprocess_err():
-            # PtyProcessError may be raised if it is not possible to terminate
-            # the child.
-            self.ptyproc.close(force=force)
+        try:
+            with _wrap_ptyprocess_err():
+                # PtyProcessError may be raised if it is not possible to
+                # terminate the child.
+                self.ptyproc.close(force=force)
+        finally:
+            # The descriptor has been closed even if the child could not be
+            # terminated: do not keep the stale number around.
+            self.child_fd = -1
         self.isalive()  # Update exit status from ptyproc
-        self.child_fd = -1
         self.closed = True
 
     def isatty(self):
